@@ -218,7 +218,7 @@ Definition capAt (c : cfg) (i : Z) : Z := capOf (c_maxSize c) (snd (planFor (c_p
 Definition dg_ok (c : cfg) (i : Z) (d : dgres) : Prop :=
   match d with
   | DG pn pl h _ lf pk dl _ rp =>
-    pn = initialPN (c_ipn c) + i /\
+    pn = c_first c + i /\
     pl = peekPnLen (c_lens c) (c_single c) (pnBase (c_ipn c)) pn /\
     h = hdrLen (c_dcid c) (c_scid c) (c_tokLen c) pl /\
     lf = pl + (pk - h - overhead) + overhead /\
@@ -423,4 +423,28 @@ Proof.
   assert (Hpf : 0 <= perFrame) by (subst perFrame; pose proof (vlen_nonneg (off + len)); pose proof (vlen_nonneg len); lia).
   assert (Z.of_nat (length fs) * perFrame <= Z.max maxcrypto 1 * perFrame) by (apply Z.mul_le_mono_nonneg_r; lia).
   lia.
+Qed.
+
+(** * the connection a Dial re-creates after Version Negotiation *)
+
+(** doDial seeds the re-created connection's Initial space with the previous connection's next
+    packet number (c_first = InitPacketNumber + k0) while the length list keeps being indexed
+    from InitPacketNumber: the k-th packet of the new connection has packet number
+    InitPacketNumber + k0 + k and is encoded in entry min(k0 + k, n-1) of the list. *)
+Lemma flight_pn_len_recreated c helloLen plens k k0 pn pnLen h fs lf pk dl ix rp :
+  nth_error (flight c helloLen plens) k = Some (DG pn pnLen h fs lf pk dl ix rp) ->
+  c_lens c <> [] -> 0 <= c_ipn c <= two62 - 1 -> c_first c = c_ipn c + Z.of_nat k0 ->
+  Z.of_nat (k0 + k) < two62 ->
+  pn = c_ipn c + Z.of_nat (k0 + k) /\
+  pnLen = nth (Nat.min (k0 + k) (length (c_lens c) - 1)) (c_lens c) 0.
+Proof.
+  intros Hnth Hne Hipn Hfirst Hk.
+  pose proof (flight_ok _ _ _ _ _ Hnth) as Hok. cbn [dg_ok] in Hok.
+  destruct Hok as (Hpn & Hpl & _).
+  assert (E : pn = initialPN (c_ipn c) + Z.of_nat (k0 + k)).
+  { destruct (initialPN_spec (c_ipn c)) as [Hs _]; [unfold two62, two64 in *; lia|].
+    rewrite Hs by lia. rewrite Hpn, Hfirst, Nat2Z.inj_add. lia. }
+  split.
+  - rewrite Hpn, Hfirst, Nat2Z.inj_add. lia.
+  - rewrite Hpl, E. apply peekPnLen_list; assumption.
 Qed.
